@@ -66,7 +66,8 @@ def run(ctx):
     h = H(ctx.src, ["edgegraph.builder.explicit", "edgegraph.traversal.helpers"])
     maxlen = 4 if ctx.thorough else 3
     counts = {}
-    for name, gen in (("core", struct.core_runs(h, maxlen, res=res)), ("constructors", struct.ctor_runs(h, res=res)), ("explicit", struct.explicit_runs(h, res=res, thorough=ctx.thorough))):
+    import itertools
+    for name, gen in (("core", itertools.chain(struct.core_runs(h, maxlen, res=res), struct.core_runs(h, 2, res=res, classes=("DirectedEdge",), vcls="SymFalsyVert"))), ("constructors", struct.ctor_runs(h, res=res)), ("explicit", struct.explicit_runs(h, res=res, thorough=ctx.thorough))):
         n = 0
         for rec in gen:
             check(res, rec)
